@@ -39,7 +39,7 @@ def selftest(C):
     # (i) flip one result bit
     import random
     rnd = random.Random(1)
-    cands = [i for i, l in enumerate(lines) if '"r":[' in l and '"o":"ok"' in l and (i + 1) not in base and '"op":"load"' not in l]
+    cands = [i for i, l in enumerate(lines) if '"r":[' in l and '"o":"ok"' in l and (i + 1) not in base and '"d":' not in l]
     picks = rnd.sample(cands, min(5, len(cands)))
     mut = list(lines)
     for i in picks:
@@ -53,8 +53,6 @@ def selftest(C):
             else:
                 rr = [1]
             ev["r"] = rr
-        # keep register dataflow consistent: corrupt the observation only
-        ev.pop("d", None)
         mut[i] = json.dumps(ev, separators=(",", ":"))
     p1 = os.path.join(d, "corrupt_result.ndjson")
     open(p1, "w").write("\n".join(mut) + "\n")
